@@ -423,6 +423,12 @@ def rule_r5(ctx) -> List[R.Inst]:
     return insts
 
 
+def rule_dep(ctx):
+    """obligations inherited from shared code reached through the call graph (sa/props/deps.py)"""
+    from .deps import dep_insts
+    return dep_insts(ctx, "C18", [HSC], skip_groups=())
+
+
 SPECS = [
     RuleSpec("C18.R1", rule_r1, 3, "A3", "both inputs untouched; result rooted in a deep copy"),
     RuleSpec("C18.R2", rule_r2, 5, "A2", "result frame = target's notes; only sound columns stored; rows kept; unique labels; split back"),
@@ -430,6 +436,7 @@ SPECS = [
     RuleSpec("C18.R4", rule_r4, 5, "A2", "sound columns of the result are cleared before slotting"),
     RuleSpec("C18.R6", rule_r6, 1, "A1", "source and target times are matched as stored (no one-sided transform)"),
     RuleSpec("C18.R5", rule_r5, 3, "A2", "bit tests on sound columns act on integer data for every history of the chart"),
+    RuleSpec("C18.D", rule_dep, 1, "M0", "rules of the shared code (timing engine, list classes, stacker) that the operations of this property reach"),
 ]
 
 META = dict(
